@@ -118,7 +118,7 @@ Qed.
 (* ---- D5 ---- *)
 
 Theorem history_crash_ok_sym : forall t0 (ops : list (op sym)),
-  0 < t0 -> det_history_sym (init_world Fine t0) ops ->
+  det_history_sym (init_world Fine t0) ops ->
   Forall (fun o => match o with OSetTable _ | OSetHist _ _ => False | _ => True end) ops ->
   crash_ok_sym (run_sym ops (init_world Fine t0)).
 Proof.
@@ -195,7 +195,7 @@ Proof. apply build_detb_sound. vm_compute. reflexivity. Qed.
 
 Lemma ex_w0_crash_ok : crash_ok_sym ex_w0.
 Proof.
-  apply (history_crash_ok_sym 1 ex_ops0); [reflexivity | cbn; auto | repeat constructor].
+  apply (history_crash_ok_sym 1 ex_ops0); [cbn; auto | repeat constructor].
 Qed.
 
 (* D5: crash_ok after a short history: two writes, a build, an edit, a build, a deletion, a clean *)
@@ -213,7 +213,7 @@ Proof.
 Qed.
 
 Example ex_history_crash_ok : crash_ok_sym (run_sym ex_ops (init_world Fine 1)).
-Proof. apply (history_crash_ok_sym 1 ex_ops); [reflexivity | exact ex_ops_det | repeat constructor]. Qed.
+Proof. apply (history_crash_ok_sym 1 ex_ops); [exact ex_ops_det | repeat constructor]. Qed.
 
 (* D3 / D4: the build of ex_w0 killed after 6 actions (between two script lines): the crash state is good,
    it differs from both the start and the end of the build, and the next build succeeds *)
